@@ -5,7 +5,7 @@ from facts import AnchorLost, op_place
 import prims
 
 EXPLANATION = """
-Only three structural clauses of C09 are decided statically; delivery, ordering, truthfulness under every adversary schedule
+Only four structural clauses of C09 are decided statically; delivery, ordering, truthfulness under every adversary schedule
 and back-off timing are not. (a) give-up is reported, never swallowed: RetransEntry::pre_send returns Ok only on the
 `counter < MRP_MAX_TRANSMISSIONS` edge (constant = 5, the protocol's budget) and Err(TxTimeout) otherwise; in
 ReliableMessage::pre_send the is_err edge of that call can reach no Ok return; every caller up the chain
@@ -14,9 +14,12 @@ in ReliableMessage::post_recv every mutation of `retrans` (field write or `&mut`
 equality of the acknowledged counter with the pending entry's counter; the mismatch edge reaches Err(Duplicate); (c) a received
 duplicate that asked for an acknowledgement is acknowledged again: in TransportRunner::handle_rx_packet, from the Duplicate arm
 every path that is not (group | reliable transport | standalone ack) passes the with_state(write MRPStandAloneAck) site
-followed by netw_send, and the ack counter written is the duplicate's own counter.
+followed by netw_send, and the ack counter written is the duplicate's own counter; (d) back-off, structural part: in ExchangeId::wait_tx the
+TxOutcome::Retransmit answer is cut by a branch on the select3 result that excludes Either3::Second (some session was removed), and the timer
+deadline is now + retrans_delay_ms() - the numeric back-off itself is not decided.
 """
-CLAUSES = ['a: transmit give-up is propagated as TxTimeout', 'b: only a matching acknowledgement clears the retransmission entry', 'c: duplicates are acknowledged again']
+CLAUSES = ['a: transmit give-up is propagated as TxTimeout', 'b: only a matching acknowledgement clears the retransmission entry', 'c: duplicates are acknowledged again',
+           'd: only the ack or the back-off timer ends the wait before a retransmission']
 NOT_DECIDED = ['at-most-once and in-order delivery', 'success only if the peer received the message', 'back-off lower bounds / timing', 'success under one good transmission']
 MIN_OBLIGATIONS = {'q': 14, 'd': 14, 'r': 14}
 
@@ -132,6 +135,31 @@ def check(R):
         R.expect('P3', co.fn, 'every duplicate that wants an acknowledgement (not group, not reliable transport, not a standalone ack) is acknowledged again',
                  bool(dup_edges) and bool(excl) and not bad, 'Duplicate arm -> with_state(write ack) on every remaining path',
                  f'from the Duplicate arm at {bad} the function can return without re-acknowledging (dup_edges={sorted(dup_edges)})')
+
+    # ---- d --------------------------------------------------------------------
+    with R.clause('d'):
+        # "retransmissions are never sent earlier than the protocol's back-off": ExchangeId::wait_tx waits on (ack, any-session-removed,
+        # back-off timer); only the ack and the timer may end the wait. Waking up because SOME session was removed must not lead to
+        # TxOutcome::Retransmit: every path to it passes a branch on the select3 result that excludes Either3::Second.
+        wt = async_body(R, 'transport::exchange::ExchangeId::wait_tx')
+        E3 = 'embassy_futures::select::Either3'
+        sel = wt.calls('embassy_futures::select::select3')
+        R.floor('select3(ack, session_removed, timer) in wait_tx', len(sel), 1)
+        tim = [t for t in wt.calls() if t.d.get('f', '').endswith('Timer::at') or t.d.get('f', '').endswith('Timer::after')]
+        R.floor('back-off timer in wait_tx', len(tim), 1)
+        s_ = prims.sources(wt, tim[0].d['a'][0], through={'embassy_time::instant::Instant::checked_add', 'embassy_time::duration::Duration::from_millis', 'fmt::Try::into_result', '<core::option::Option<T> as fmt::Try>::into_result'})
+        R.expect('P10', wt.fn, 'the timer deadline derives from the retransmission entry\'s back-off delay', any(c.endswith('retrans_delay_ms') for c in src_calls(s_)) and any(c.endswith('Instant::now') for c in src_calls(s_)),
+                 'now + retrans_delay_ms()', f'{sorted(src_calls(s_))[:6]}')
+        retr = [i for i, j, st in wt.stmts() if st[1].get('op') == 'agg' and st[1].get('adt') == 'transport::exchange::TxOutcome' and st[1].get('var') == 'Retransmit' and not wt.is_cleanup(i)]
+        R.floor('TxOutcome::Retransmit in wait_tx', len(retr), 1)
+
+        def not_second():
+            second, other = prims.enum_local_edges(F, wt, lambda pl: wt.local_ty(pl[0]).startswith(E3), E3, ['Second'])
+            if not second and not other:
+                from facts import GuardMissing
+                raise GuardMissing(f'{wt.fn}: the result of select3 is not inspected')
+            return other
+        R.cut('P2', wt, 'answer Retransmit', retr, 'the wait ended by the ack notification or by the back-off timer, not by the removal of some session (select3 result is not Either3::Second)', not_second)
 
 
 def _succ(R, body, sites):
